@@ -90,6 +90,27 @@ Third round (other source files, table UNITS; one generated file per unit):
 Conventions (DESIGN 3): Python ints are Z; a shift count that depends on a parameter gets CPython's `ValueError: negative shift
 count` guard, a count built from object state and literals only is taken as non-negative (class invariant 0 <= prefixlen <=
 width); method parameters are ints unless declared otherwise in WHITELIST; every parameter of a module-level function is declared in FUNCS.
+SRCF (class FnF, units SRCF_UNITS: second units over netaddr/strategy/eui48.py, eui64.py -> pysrc_eui48b_gen.v, pysrc_eui64b_gen.v, and
+over netaddr/eui/__init__.py -> pysrc_euib_gen.v; symbols in Model/SrcPreludeEui2.v; a unit names its own subclass of Fn in FN_CLASS,
+which sees a construct first and hands everything it does not recognise to Fn):
+* a dialect parameter declared `optedialect` is None or the record (word_size, num_words, word_sep, word_fmt) of a dialect class
+  (dialect_t = Model/Eui.v dialect; attributes d_word_size ..); `if dialect is None: dialect = NAME` binds the regenerated record
+  constant src_<m>_<NAME>_rec of the class NAME stands for (ints as for DEFAULT_DIALECT, the two strings literal, through the
+  bases); `if x is None: x = e` for an `optstr` parameter likewise.  A record handed to a callee translated with the pair is d_pair.
+* calls of translated functions may use keyword arguments and omit trailing parameters (the callee's literal default is passed).
+* the module's own `width` / `version` / `max_int` are the constants src_<m>_width .. of Gen/pysrc_eui_gen.v.
+* `_struct.pack('>..', a, b)`, `_struct.pack('>kB', *l)`, `_struct.unpack('>kB', b)` (with `import struct as _struct`) =
+  py_struct_pack / py_struct_unpack <byte widths read from the literal> (Model/Codec.v struct_pack / struct_unpack, StructError);
+  a bytes object is the list of its byte values; list(<list>) is that list.
+* an EUI method: `self._module.f(args)` = `if ver =? src_eui48_version then src_eui48_f args else if ver =? src_eui64_version then
+  src_eui64_f args else Raise Unsupported` (the two modules the file imports as _eui48 / _eui64; any other _module is outside the
+  class invariant); the pseudo-parameter "self._dialect" of a unit entry makes the receiver's _dialect a leading parameter;
+  `self._value = <call>` as the last state assignment returns the new value; `l[i]` with a computed index = py_getitem_o (IndexError),
+  `l[i] = e` = py_setitem_o on an unaliased list, `l[a:b]` for literals 0 <= a <= b = py_slice_lit; `text % n` = py_fmt_int (Model/Eui.v
+  apply_fmt), `text % tuple(l)` = py_fmt_ints; `sep.join(l)` = join; `[e for x in xs]` = map, or py_map_o when e can raise;
+  `int(s, 16)` / `int(s, 10)` = py_int_o; (a, b) <op> (c, d) on tuples of ints = componentwise equality / lexicographic order;
+  hash((a, b)) = py_hash_pair (the pair itself); `_is_int(x)`, `isinstance(x, slice)`, `isinstance(x, EUI)` are decided by the
+  declared type of x (int / str / eui).
 """
 import ast
 import os
@@ -233,6 +254,45 @@ OPERAND = (("OAddr", ("ver", "v")), ("ONet", ("ver", "v", "p")), ("ORng", ("ver"
 KINDCLASS = {"OAddr": "IPAddress", "ONet": "IPNetwork", "ORng": "IPRange"}
 MUTATORS = ("append", "pop")
 PURE_METHODS = ("subnet", "union")      # x.subnet(..) (IPNetwork: a generator over new objects), s.union(t) (a new set): x, s unchanged
+
+# ---- SRCF: the remaining functions of netaddr/strategy/eui48.py, eui64.py and of class EUI (second units over those files; the
+# constructs they need are in class FnF below, named here through FN_CLASS).  Parameter types: `optedialect` = None or a dialect
+# class seen as the record (word_size, num_words, word_sep, word_fmt) (Model/SrcPreludeEui2.v dialect_t), `edialect` = such a record,
+# `optstr` = None or text, `list int` for a bytes object (its byte values), `eui` = an EUI object, `darg` = the argument of
+# _validate_dialect (Model/Eui.v darg: None | a class with word_size and word_fmt | any other object).  The pseudo-parameter
+# "self._dialect" makes the receiver's _dialect attribute a leading parameter of the method.
+SRCF_REQ = " Base.PyStr Model.SrcPreludeStr Model.Eui Model.SrcPreludeEui Model.SrcPreludeEui2 Gen.pysrc_eui_gen"
+SRCF_STRATEGY_FUNCS = [
+    (None, "int_to_packed", {"int_val": "int"}), (None, "packed_to_int", {"packed_int": "list int"}),
+    (None, "valid_bits", {"bits": "str", "dialect": "optedialect"}), (None, "bits_to_int", {"bits": "str", "dialect": "optedialect"}),
+    (None, "int_to_bits", {"int_val": "int", "dialect": "optedialect", "word_sep": "optstr"}),
+    (None, "valid_bin", {"bin_val": "str", "dialect": "optedialect"}), (None, "int_to_bin", {"int_val": "int"}),
+    (None, "bin_to_int", {"bin_val": "str"})]
+SRCF_UNITS = [
+    ("netaddr/strategy/eui48.py", "pysrc_eui48b_gen.v", "eui48_", SRCF_REQ, list(SRCF_STRATEGY_FUNCS)),
+    ("netaddr/strategy/eui64.py", "pysrc_eui64b_gen.v", "eui64_", SRCF_REQ, list(SRCF_STRATEGY_FUNCS)),
+    ("netaddr/eui/__init__.py", "pysrc_euib_gen.v", "", SRCF_REQ + " Gen.pysrc_eui48b_gen Gen.pysrc_eui64b_gen", [
+        ("EUI", "words", {}), ("EUI", "packed", {}), ("EUI", "bin", {}), ("EUI", "bits", {"word_sep": "optstr"}),
+        ("EUI", "ei", {}), ("EUI", "iab", {}),
+        ("EUI", "__getitem__:int", {"idx": "int", "self._dialect": "edialect"}),
+        ("EUI", "__setitem__", {"idx": "int", "value": "int", "self._dialect": "edialect"}),
+        ("EUI", "__hash__", {})] + [("EUI", m, {"other": "eui"}) for m in ("__eq__", "__ne__", "__lt__", "__le__", "__gt__", "__ge__")] + [
+    ]),
+]
+UNITS += SRCF_UNITS
+FILES = FILES + tuple(u[1] for u in SRCF_UNITS)
+STATE["IAB"] = ()
+COQTY.update({"edialect": "dialect_t", "optedialect": "(option dialect_t)", "optstr": "(option string)", "darg": "darg"})
+SRCF_VALUE_TYPES = ("edialect", "optedialect", "optstr", "darg")
+# netaddr.strategy.int_to_bits is not translated (nested while inside for): the call is its hand model (SrcPreludeEui2.py_int_to_bits)
+EXTERN["netaddr.strategy.int_to_bits"] = ("py_int_to_bits", ("int", "int", "int", "str"), "str")
+# names the generated text of these units uses as symbols: a Python local of that name gets a trailing underscore
+SRCF_RESERVED = set("dialect_t mk_dialect d_word_size d_num_words d_word_sep d_word_fmt d_pair py_struct_pack py_struct_unpack "
+                    "py_int_to_bits py_getitem_o py_setitem_o py_slice_lit py_fmt_int py_fmt_ints py_map_o py_hash_pair join map "
+                    "dialect darg DNone DRec DBad word_size num_words word_sep word_fmt".split())
+BY_FILE = {}        # (SRCF) source file -> all translators made for it, in unit order (filled by generate())
+FN_CLASS = {}       # (SRCF) output file -> the subclass of Fn that translates that unit's functions
+SRCF_STRUCT_SIZES = {"B": 1, "H": 2, "I": 4}       # struct format characters (big-endian, standard sizes) -> bytes per field
 
 
 class Untranslatable(Exception):
@@ -617,11 +677,15 @@ class Fn:
             env[x.arg] = (ty, cn)
             env["@taint"] |= {x.arg}
             self.params.append((cn, ty))
+        self.unit_init(env)                 # (SRCF) hook for a unit's own class of Fn: extra attributes / state parameters
         body = self.f.body
         if body and isinstance(body[0], ast.Expr) and isinstance(body[0].value, ast.Constant) and isinstance(body[0].value.value, str):
             body = body[1:]
         self.ir = self.block(body, env, lambda e: self.leaf(e, "none", None), [])
         self.finish()
+
+    def unit_init(self, env):
+        """(SRCF) hook called before the body is translated; the class a unit names in FN_CLASS may add attributes / parameters"""
 
     # ---- object state read and written like locals (STATEVARS)
     def method_mutates(self, name, seen=()):
@@ -1934,6 +1998,408 @@ class Fn:
             self.render(self.ir, "  ", self.outcome, self.optional))
 
 
+# ---- SRCF: constructs of the EUI units (see the docstring paragraph "SRCF") -------------------------------------------
+_is_value_before_SRCF = is_value
+
+
+def is_value(t):
+    return _is_value_before_SRCF(t) or t in SRCF_VALUE_TYPES
+
+
+class FnF(Fn):
+    """Fn with the constructs of the units listed in SRCF_UNITS; everything it does not recognise goes to Fn unchanged."""
+    OPT = {"optstr": "str", "optedialect": "edialect"}
+
+    def coqname(self, node, name):
+        if name in SRCF_RESERVED:
+            if self.used.setdefault(name + "_", name) != name:
+                bad(node, "identifier clash on %s_" % name)
+            return name + "_"
+        return Fn.coqname(self, node, name)
+
+    def unit_init(self, env):
+        self.dialect_param = False
+        if self.recv is None and self.tr.prefix in ("eui48_", "eui64_"):
+            # the module's own constants width / version / max_int: the regenerated constants of Gen/pysrc_eui_gen.v
+            for c in ("width", "version", "max_int"):
+                if c not in env:
+                    self.attrs[c] = ("int", "src_%s%s" % (self.tr.prefix, c))
+        if self.recv is not None:
+            # the constants of the two strategy modules, through the aliases the file imports them under (Gen/pysrc_eui_gen.v)
+            for m in ("eui48", "eui64"):
+                if self.mod.imports.get("_" + m) == "netaddr.strategy." + m:
+                    for c in ("width", "version", "max_int"):
+                        self.attrs["_%s.%s" % (m, c)] = ("int", "src_%s_%s" % (m, c))
+        if self.recv == "EUI" and "self._dialect" in self.ptypes_declared:
+            cn = self.coqname(self.f, "self_dialect")
+            self.params.insert(0, (cn, "edialect"))
+            self.attrs["self._dialect"] = ("edialect", cn)
+            self.dialect_param = True
+
+    # ---- calls of translated definitions: keyword / default arguments, a dialect record for a callee that takes the pair
+    def coerce(self, node, ty, t, pty):
+        if ty == "none" and isinstance(pty, str) and pty.startswith("opt"):
+            return (pty, "None")
+        if ty == "edialect" and pty == "optdialect":
+            return (pty, "(Some (d_pair %s))" % t)
+        if isinstance(pty, str) and self.OPT.get(pty) == ty:
+            return (pty, "(Some %s)" % t)
+        return (ty, t)
+
+    def bind_args(self, node, d, env, ptys=None, names=None, defaults=None):
+        """the arguments of a call by the callee's Python signature: positional, keyword, literal default"""
+        if d is not None:
+            a = d.f.args
+            names = [x.arg for x in a.args][(0 if d.recv is None else 1):]
+            defaults = dict(zip(names[len(names) - len(a.defaults):], a.defaults)) if a.defaults else {}
+            ptys = [pty for _, pty in d.params[len(d.params) - len(names):]] if names else []
+        if len(node.args) > len(names) or any(isinstance(x, ast.Starred) for x in node.args):
+            bad(node, "unsupported argument list")
+        given = dict(zip(names, node.args))
+        for k in node.keywords:
+            if k.arg is None or k.arg in given or k.arg not in names:
+                bad(node, "unsupported keyword argument")
+            given[k.arg] = k.value
+        out = []
+        for x, pty in zip(names, ptys):
+            if x not in given and x not in defaults:
+                bad(node, "missing argument %s" % x)
+            ty, t = self.ex(given[x] if x in given else defaults[x], env)
+            out.append(self.coerce(node, ty, t, pty))
+        return out
+
+    def generated_d(self, node, d, state, args):
+        """Fn.generated for an already found definition d (possibly of a unit this file does not import by name)"""
+        if FILES.index(d.file) > FILES.index(self.file):
+            bad(node, "%s lives in %s, which comes after %s" % (d.cname, d.file, self.file))
+        self.depfns.append(d)
+        self.assumes_inv |= d.assumes_inv
+        if len(args) != len(d.params):
+            bad(node, "unsupported argument list for %s" % d.cname)
+        for (ty, _), (_, pty) in zip(args, d.params):
+            unify(node, ty, pty, "argument of %s" % d.cname)
+        term = "(%s)" % " ".join([d.cname] + ([state] if state else []) + [t for _, t in args])
+        if d.optional or d.mutating:
+            bad(node, "use of %s, which may return None or assigns the object state" % d.cname)
+        return ("out", d.kind, term) if d.outcome else (d.kind, term)
+
+    def generated(self, node, recv, name, state, args):
+        d = self.tr.get(recv, name, node)
+        if getattr(d, "dialect_param", False):           # the callee reads the receiver's _dialect: it is its first parameter
+            m = re.fullmatch(r"\(ever (.+)\) \(evalue \1\)", state or "")
+            if m:
+                args = [("edialect", "(edialect %s)" % m.group(1))] + list(args)
+            elif "self._dialect" in self.attrs and state == self.state({}):
+                args = [self.attrs["self._dialect"]] + list(args)
+            else:
+                bad(node, "call of %s, which reads the dialect, on a receiver whose dialect is not known" % d.cname)
+        return Fn.generated(self, node, recv, name, state, args)
+
+    def callfn(self, node, name, env):
+        d = self.tr.get(None, name, node)
+        return self.generated(node, None, name, "", self.bind_args(node, d, env))
+
+    def module_fn(self, m, name, node):
+        """the translated module-level function `name` of netaddr/strategy/<m>.py (any unit over that file)"""
+        for t in BY_FILE.get("netaddr/strategy/%s.py" % m, []):
+            if any(k[0] is None and k[1] == name for k in t.specs):
+                return t.get(None, name, node)
+        bad(node, "%s.%s is not translated" % (m, name))
+
+    def module_call(self, node, env):
+        """self._module.f(..) on an EUI receiver: the object's strategy module is one of the two modules the file imports as
+        _eui48 / _eui64, told apart by their regenerated `version` constants; any other _module is outside the class invariant"""
+        alts, kind = [], None
+        for m in ("eui48", "eui64"):
+            if self.mod.imports.get("_" + m) != "netaddr.strategy." + m or ("_%s.version" % m) not in self.attrs:
+                bad(node, "self._module.%s(..) in a file that does not import _eui48 / _eui64" % node.func.attr)
+            d = self.module_fn(m, node.func.attr, node)
+            npre = len(self.pre)
+            r = self.generated_d(node, d, "", self.bind_args(node, d, env))
+            if len(self.pre) != npre and alts:
+                bad(node, "argument of self._module.%s(..) that can raise" % node.func.attr)
+            k = r[1] if r[0] == "out" else r[0]
+            if kind is not None:
+                unify(node, k, kind, "results of the two strategy modules")
+            kind = k
+            alts.append((self.attrs["_%s.version" % m][1], r[2] if r[0] == "out" else "Ok %s" % r[1]))
+        ver = self.attrs["self._module.version"][1]
+        return ("out", kind, "(if (%s =? %s) then %s else if (%s =? %s) then %s else Raise Unsupported)" % (
+            ver, alts[0][0], alts[0][1], ver, alts[1][0], alts[1][1]))
+
+    def plain_import(self, alias, module):
+        """is `alias` bound only by the top-level `import <module> as <alias>`?"""
+        binds = [n for st in self.mod.tree.body for n in ([st] if isinstance(st, (ast.FunctionDef, ast.ClassDef)) else ast.walk(st))
+                 if (isinstance(n, (ast.FunctionDef, ast.ClassDef)) and n.name == alias)
+                 or (isinstance(n, ast.Name) and n.id == alias and isinstance(n.ctx, ast.Store))
+                 or (isinstance(n, ast.alias) and (n.asname or n.name) == alias)]
+        return (len(binds) == 1 and isinstance(binds[0], ast.alias) and binds[0].name == module
+                and any(isinstance(st, ast.Import) and binds[0] in st.names for st in self.mod.tree.body))
+
+    def struct_sizes(self, node):
+        fmt = node.args[0].value if node.args and isinstance(node.args[0], ast.Constant) else None
+        m = re.fullmatch(r">((?:\d*[BHI])+)", fmt) if isinstance(fmt, str) else None
+        if not m:
+            bad(node, "struct format other than a literal '>' followed by counted B / H / I fields")
+        return [SRCF_STRUCT_SIZES[c] for n, c in re.findall(r"(\d*)([BHI])", m.group(1)) for _ in range(int(n or "1"))]
+
+    def dialect_rec(self, node, name):
+        """the record constant of the dialect class that the module-level or imported name `name` stands for"""
+        imp = self.mod.imports.get(name)
+        if imp:
+            module, _, real = imp.rpartition(".")
+            fn = module.replace(".", "/") + ".py"
+            ts = [t for t in BY_FILE.get(fn, []) if FN_CLASS.get(t.out) is FnF]
+            if not ts or FILES.index(ts[0].out) >= FILES.index(self.file):
+                bad(node, "%s is imported from a module without an earlier SRCF unit" % name)
+            return srcf_dialect_rec_const(ts[0], real, node)
+        return srcf_dialect_rec_const(self.tr, name, node)
+
+    # ---- expressions
+    def rhs(self, node, env):
+        if isinstance(node, ast.Attribute):
+            path = dotted(node) or ""
+            head, _, tail = path.rpartition(".")
+            base = env.get(head) if head in env else self.attrs.get(head)
+            if base and base[0] == "edialect" and tail in ("word_size", "num_words", "word_sep", "word_fmt"):
+                return ("int" if tail in ("word_size", "num_words") else "str", "(d_%s %s)" % (tail, base[1]))
+        if (isinstance(node, ast.Compare) and len(node.ops) == 1 and isinstance(node.left, ast.Tuple)
+                and isinstance(node.comparators[0], ast.Tuple) and type(node.ops[0]) in CMP
+                and len(node.left.elts) == len(node.comparators[0].elts) > 0):
+            # comparison of two tuples of ints of the same length: equality componentwise, order lexicographic
+            xs = [self.int_(x, env) for x in node.left.elts]
+            ys = [self.int_(x, env) for x in node.comparators[0].elts]
+            op = type(node.ops[0])
+            if op in (ast.Eq, ast.NotEq):
+                t = "(%s)" % " && ".join("(%s =? %s)" % p for p in zip(xs, ys))
+                return ("bool", t if op is ast.Eq else "(negb %s)" % t)
+            strict = {ast.Lt: ast.Lt, ast.LtE: ast.Lt, ast.Gt: ast.Gt, ast.GtE: ast.Gt}[op]
+            t = CMP[op] % (xs[-1], ys[-1])
+            for x, y in reversed(list(zip(xs[:-1], ys[:-1]))):
+                t = "(%s || ((%s =? %s) && %s))" % (CMP[strict] % (x, y), x, y, t)
+            return ("bool", t)
+        if isinstance(node, ast.BinOp) and isinstance(node.op, ast.Mod):
+            snap, pre0 = self.snapshot(), list(self.pre)
+            ty, t = self.ex(node.left, env)
+            if ty == "str":                                 # text % int, text % tuple(<list of ints>)
+                r = node.right
+                if self.builtin_call(r, "tuple", env, 1):
+                    lty, lt = self.ex(r, env)
+                    if not is_list(lty) or lty[1].find().t != "int":
+                        bad(node, "%% of text and a tuple of %s" % show(lty))
+                    return ("out", "str", "(py_fmt_ints %s %s)" % (t, lt))
+                return ("out", "str", "(py_fmt_int %s %s)" % (t, self.int_(r, env)))
+            self.restore(snap)
+            self.pre = pre0
+        return Fn.rhs(self, node, env)
+
+    def subscript(self, node, env):
+        sl = node.slice
+        if isinstance(sl, ast.Slice) or const_int(sl) is None:
+            snap, pre0 = self.snapshot(), list(self.pre)
+            ty, t = self.ex(node.value, env)
+            if is_list(ty) and isinstance(sl, ast.Slice):
+                a, b = const_int(sl.lower) if sl.lower is not None else None, const_int(sl.upper) if sl.upper is not None else None
+                if a is not None and b is not None and 0 <= a <= b and sl.step is None:
+                    return (("list", ty[1]), "(py_slice_lit %d %d %s)" % (a, b, t))      # l[a:b], literals 0 <= a <= b
+            elif is_list(ty) and ty[1].find().t is not None:
+                return ("out", ty[1].find().t, "(py_getitem_o %s %s)" % (t, self.int_(sl, env)))     # l[i], computed index
+            self.restore(snap)
+            self.pre = pre0
+        return Fn.subscript(self, node, env)
+
+    def call(self, node, env):
+        f = node.func
+        if (self.recv == "EUI" and isinstance(f, ast.Attribute) and dotted(f) == "self._module." + f.attr
+                and "self._module" not in env):
+            return self.module_call(node, env)
+        if dotted(f) in ("_struct.pack", "_struct.unpack") and "_struct" not in env and self.plain_import("_struct", "struct"):
+            if node.keywords or len(node.args) < 2:
+                bad(node, "struct call with an unsupported argument list")
+            sizes = "[%s]" % "; ".join("%d%%nat" % n for n in self.struct_sizes(node))
+            if f.attr == "pack" and len(node.args) == 2 and isinstance(node.args[1], ast.Starred):
+                ty, vals = self.ex(node.args[1].value, env)              # pack(fmt, *l)
+                unify(node, ty, ("list", Cell("int")), "values of struct.pack")
+            elif f.attr == "pack":
+                vals = "[%s]" % "; ".join(self.int_(x, env) for x in node.args[1:])
+            else:
+                if len(node.args) != 2:
+                    bad(node, "struct.unpack with an unsupported argument list")
+                ty, vals = self.ex(node.args[1], env)
+                unify(node, ty, ("list", Cell("int")), "buffer of struct.unpack")
+            return ("out", ("list", Cell("int")), "(py_struct_%s %s %s)" % (f.attr, sizes, vals))
+        if (self.builtin_call(node, "list", env, 1) and not (isinstance(node.args[0], ast.Call) and isinstance(node.args[0].func, ast.Attribute)
+                                                              and node.args[0].func.attr == "subnet")):
+            r = self.rhs(node.args[0], env)                 # list(<list / tuple>): a new list with the same elements
+            if is_list(r[1] if r[0] == "out" else r[0]):
+                return r
+            bad(node, "list() of %s" % show(r[1] if r[0] == "out" else r[0]))
+        if self.builtin_call(node, "int", env, 2) and const_int(node.args[1]) in (10, 16):
+            ty, t = self.ex(node.args[0], env)
+            if ty != "str":
+                bad(node, "int(x, base) of %s" % show(ty))
+            return ("out", "int", "(py_int_o %d %s)" % (const_int(node.args[1]), t))
+        if isinstance(f, ast.Attribute) and f.attr == "join" and len(node.args) == 1 and not node.keywords:
+            snap, pre0 = self.snapshot(), list(self.pre)
+            ty, t = self.ex(f.value, env)
+            if ty == "str":                                 # sep.join(<list of text>)
+                lty, lt = self.ex(node.args[0], env)
+                unify(node, lty, ("list", Cell("str")), "argument of join")
+                return ("str", "(join %s %s)" % (t, lt))
+            self.restore(snap)
+            self.pre = pre0
+        if (self.builtin_call(node, "hash", env, 1) and isinstance(node.args[0], ast.Tuple) and len(node.args[0].elts) == 2):
+            a, b = [self.int_(x, env) for x in node.args[0].elts]
+            return (("tup", ("int", "int")), "(py_hash_pair (%s, %s))" % (a, b))
+        return Fn.call(self, node, env)
+
+    def listcomp(self, node, env):
+        """[e for x in xs] -> map (fun x => e) xs, or py_map_o (fun x => <the calls of e that can raise, in order>; Ok e) xs"""
+        g = node.generators
+        if len(g) == 1 and not g[0].ifs and not g[0].is_async and isinstance(g[0].target, ast.Name) and g[0].target.id not in env:
+            ty, t = self.ex(g[0].iter, env)
+            elem = ty[1].find().t if is_list(ty) else None
+            if elem is None:
+                bad(node, "comprehension over %s" % show(ty))
+            cn, lenv = self.bind_local(g[0].target, g[0].target.id, elem, env, g[0].iter)
+            saved, self.pre = self.pre, []
+            ety, et = self.ex(node.elt, lenv)
+            inner, self.pre = self.pre, saved
+            if not is_value(ety):
+                bad(node, "comprehension element of kind %s" % show(ety))
+            if not inner:
+                return (("list", Cell(ety)), "(map (fun %s => %s) %s)" % (cn, et, t))
+            body = "".join("(if %s then Raise %s else " % (it[1], it[2]) if it[0] == "guard" else "do %s <- %s; " % (it[1], it[2]) for it in inner)
+            body += "Ok %s" % et + ")" * sum(it[0] == "guard" for it in inner)
+            return ("out", ("list", Cell(ety)), "(py_map_o (fun %s => %s) %s)" % (cn, body, t))
+        return Fn.listcomp(self, node, env)
+
+    # ---- statements
+    def assign(self, s, env, go):
+        tgt = s.targets[0] if isinstance(s, ast.Assign) and len(s.targets) == 1 else None
+        if (isinstance(tgt, ast.Subscript) and isinstance(tgt.value, ast.Name) and is_list(env.get(tgt.value.id, ("",))[0])
+                and not isinstance(tgt.slice, ast.Slice)):
+            l = tgt.value.id                                             # l[i] = e on a list (no second name: no aliasing)
+            lty, lt = env[l]
+            idx = self.int_(tgt.slice, env)
+            ty, t = self.ex(s.value, env)
+            unify(s, ("list", Cell(ty)), lty, "assigned element")
+            pre = self.take_pre()
+            cn, env = self.bind_local(s, l, lty, env)
+            return self.wrap(pre, ("bind", cn, "(py_setitem_o %s %s %s)" % (lt, idx, t), go(env)))
+        if (tgt is not None and dotted(tgt) == "self._value" and "self._value" in self.attrs and isinstance(s.value, ast.Call)):
+            if env["@mut"] or env["@break"] is not None:                 # self._value = <call that can raise>
+                bad(s, "state assignment inside a loop / second state assignment")
+            t = self.int_(s.value, env)
+            pre, env = self.take_pre(), dict(env)
+            env["@mut"], env["self._value"] = ("self._value", t), ("int", t)
+            return self.wrap(pre, go(env))
+        return Fn.assign(self, s, env, go)
+
+    def if_(self, s, rest, env, k, after):
+        t, neg = s.test, False
+        if isinstance(t, ast.UnaryOp) and isinstance(t.op, ast.Not):
+            t, neg = t.operand, True
+        if (not neg and isinstance(t, ast.Compare) and len(t.ops) == 1 and isinstance(t.ops[0], ast.Is) and isinstance(t.left, ast.Name)
+                and isinstance(t.comparators[0], ast.Constant) and t.comparators[0].value is None
+                and env.get(t.left.id, ("",))[0] in self.OPT):
+            # `if x is None: x = <default>`: from here on x is a value
+            x, a = t.left.id, s.body[0] if len(s.body) == 1 else None
+            if not (s.orelse == [] and isinstance(a, ast.Assign) and len(a.targets) == 1 and isinstance(a.targets[0], ast.Name)
+                    and a.targets[0].id == x):
+                bad(s, "`if %s is None:` followed by something other than `%s = <default>`" % (x, x))
+            oty, old = env[x]
+            if oty == "optedialect":
+                if not isinstance(a.value, ast.Name) or a.value.id in env:
+                    bad(s, "default dialect that is not a module-level name")
+                dflt = self.dialect_rec(a, a.value.id)
+            else:
+                self.nohoist += 1
+                dflt = self.ex(a.value, env)
+                self.nohoist -= 1
+                if dflt[0] != self.OPT[oty]:
+                    bad(s, "default of type %s for %s" % (show(dflt[0]), x))
+                dflt = dflt[1]
+            cn, env = self.bind_local(a.targets[0], x, self.OPT[oty], env, t)
+            return ("let", cn, "(match %s with Some h0 => h0 | None => %s end)" % (old, dflt), self.block(rest, env, k, after))
+        if (isinstance(t, ast.Call) and dotted(t.func) == "_is_int" and "_is_int" not in env
+                and self.mod.imports.get("_is_int") == "netaddr.compat._is_int" and compat_lambda_isinstance("_is_int")):
+            if len(t.args) != 1 or t.keywords or not isinstance(t.args[0], ast.Name) or env.get(t.args[0].id, ("",))[0] not in ("str", "int", "eui"):
+                bad(s, "_is_int test on something whose type does not decide it")
+            yes = (env[t.args[0].id][0] == "int") != neg
+            return self.block((s.body if yes else s.orelse) + rest, env, k, after)
+        return Fn.if_(self, s, rest, env, k, after)
+
+    ISINST = {("int", "slice"): False, ("int", "EUI"): False, ("str", "EUI"): False, ("str", "slice"): False,
+              ("eui", "EUI"): True, ("eui", "slice"): False}
+
+    def isinstance_(self, s, t, neg, rest, env, k, after):
+        if (len(t.args) == 2 and not t.keywords and isinstance(t.args[0], ast.Name) and isinstance(t.args[1], ast.Name)
+                and (env.get(t.args[0].id, ("",))[0], t.args[1].id) in self.ISINST and t.args[1].id not in env
+                and (t.args[1].id in self.mod.classes or not self.mod.toplevel(t.args[1].id))):
+            # isinstance(x, C) decided by the declared type of x (C: a class of this module, or the builtin `slice`)
+            yes = self.ISINST[(env[t.args[0].id][0], t.args[1].id)] != neg
+            return self.block((s.body if yes else s.orelse) + rest, env, k, after)
+        return Fn.isinstance_(self, s, t, neg, rest, env, k, after)
+
+
+def srcf_class_attr(t, cls, attr, node, depth=0):
+    """the constant bound to `attr` in the body of class `cls` of t's module or, failing that, of its bases (in order)"""
+    c = t.mod.classes.get(cls)
+    if c is None or depth > 8:
+        bad(node, "class %s is not defined in %s" % (cls, t.fn), t.fn)
+    binds = [st for st in c.body for n in ast.walk(st) if isinstance(n, ast.Name) and n.id == attr and isinstance(n.ctx, ast.Store)]
+    if binds:
+        if len(binds) != 1 or not isinstance(binds[0], ast.Assign) or len(binds[0].targets) != 1:
+            bad(binds[-1], "%s.%s is not bound by one plain assignment" % (cls, attr), t.fn)
+        return binds[0].value
+    for b in c.bases:
+        if dotted(b) != "object":
+            return srcf_class_attr(t, dotted(b), attr, node, depth + 1)
+    bad(node, "class %s has no attribute %s" % (cls, attr), t.fn)
+
+
+def srcf_dialect_rec_const(t, name, node):
+    """the Gallina constant for the dialect class that the module-level name `name` of t's file stands for (the class itself,
+    or a name bound once to it): the record of its word_size, num_words (int constant expressions, evaluated per class body),
+    word_sep, word_fmt (string literals), looked up through the bases"""
+    cn = t.mangle(None, name) + "_rec"
+    if cn not in t.consts:
+        cls, line = name, None
+        if name not in t.mod.classes:
+            ds = [a for a in t.mod.tree.body for n in ast.walk(a) if isinstance(n, ast.Name) and n.id == name and isinstance(n.ctx, ast.Store)]
+            if (len(ds) != 1 or not isinstance(ds[0], ast.Assign) or len(ds[0].targets) != 1 or not isinstance(ds[0].value, ast.Name)
+                    or ds[0].value.id not in t.mod.classes or t.mod.imports.get(name)):
+                bad(node, "%s is not a class of %s nor bound once, at top level, to one" % (name, t.fn), t.fn)
+            cls, line = ds[0].value.id, ds[0].lineno
+        elif sum(1 for st in t.mod.tree.body for n in ([st] if isinstance(st, (ast.FunctionDef, ast.ClassDef)) else ast.walk(st))
+                 if (isinstance(n, (ast.FunctionDef, ast.ClassDef)) and n.name == name)
+                 or (isinstance(n, ast.Name) and n.id == name and isinstance(n.ctx, ast.Store))) != 1:
+            bad(node, "%s is bound more than once" % name, t.fn)
+        CURFILE.append(t.fn)
+        try:
+            ints = t.class_ints(cls)
+            strs = []
+            for a in ("word_sep", "word_fmt"):
+                v = srcf_class_attr(t, cls, a, node)
+                if not (isinstance(v, ast.Constant) and isinstance(v.value, str) and all(32 <= ord(c) < 127 for c in v.value)):
+                    bad(v, "%s.%s is not a printable string literal" % (cls, a))
+                strs.append('"%s"%%string' % v.value.replace('"', '""'))
+        finally:
+            CURFILE.pop()
+        if "word_size" not in ints or "num_words" not in ints:
+            bad(node, "class %s has no constant word_size / num_words" % cls, t.fn)
+        t.consts[cn] = ("(* %s: %s%s, line %d: the record (word_size, num_words, word_sep, word_fmt) of that class *)\n"
+                        "Definition %s : dialect_t := mk_dialect %d %d %s %s.\n"
+                        % (t.fn, name, " = " + cls if cls != name else "", line or t.mod.classes[cls].lineno, cn,
+                           ints["word_size"], ints["num_words"], strs[0], strs[1]))
+    return cn
+
+
+for _u in SRCF_UNITS:
+    FN_CLASS[_u[1]] = FnF
+
+
 BY_MODULE = {}      # dotted module name -> the first translator made for its file (filled by generate())
 
 
@@ -1945,6 +2411,7 @@ class Translator:
         self.specs = WHITELIST + FUNCS if specs is None else specs
         self.done, self.order, self.failed, self.active, self.consts = {}, [], {}, [], {}
         BY_MODULE.setdefault(re.sub(r"(/__init__)?\.py$", "", fn).replace("/", "."), self)
+        BY_FILE.setdefault(fn, []).append(self)            # (SRCF) every translator of a file, in unit order
         CURFILE.append(fn)
         try:
             self.mod = Module(fn)
@@ -2051,7 +2518,14 @@ class Translator:
             if t is not None and t is not self and any(k[0] is None and k[1] == real for k in t.specs) and not t.mod.imports.get(real):
                 return t, real
             return None
-        return self.owner_of_samefile(name)
+        return self.owner_of_samefile(name) or self.owner_of_sibling(name)
+
+    def owner_of_sibling(self, name):
+        """(SRCF) (translator, name) of an earlier unit over the same file that lists the module-level function `name`"""
+        for t in BY_FILE.get(self.fn, []):
+            if t is not self and any(k[0] is None and k[1] == name for k in t.specs) and not t.mod.imports.get(name):
+                return t, name
+        return None
 
     def modof(self, cls):
         """the parsed module that defines class `cls` as seen from this file (this one, or netaddr/ip/__init__.py for an import)"""
@@ -2068,6 +2542,10 @@ class Translator:
             return self.parent.get(recv, name, node)
         if self.parent is not None and self.parent.fn == self.fn and not any(w[:2] == key for w in self.specs):
             return self.parent.get(recv, name, node)        # a second unit over the same file: everything else is the first one's
+        if recv is not None and not any(w[:2] == key for w in self.specs):      # (SRCF) a method listed by another unit over the same file
+            for t in BY_FILE.get(self.fn, []):
+                if t is not self and any(w[:2] == key for w in t.specs):
+                    return t.get(recv, name, node)
         if key in self.failed:
             bad(node, "depends on untranslatable %s" % self.mangle(*key))
         if key in self.active:
@@ -2079,7 +2557,7 @@ class Translator:
             self.active.append(key)
             CURFILE.append(self.fn)
             try:
-                d = Fn(self, recv, name, spec[0][2])
+                d = FN_CLASS.get(self.out, Fn)(self, recv, name, spec[0][2])     # (SRCF) a unit may name its own subclass of Fn
                 d.body_text = d.text()          # also resolves every list type: fail here, scoped to this definition
             except Untranslatable as e:
                 self.failed[key] = str(e)
@@ -2154,6 +2632,7 @@ def failures(tr, failed, mine):
 
 def generate():
     BY_MODULE.clear()
+    BY_FILE.clear()
     tr = Translator().run()
     units = [Translator(fn, out, prefix, specs, tr).run() for fn, out, prefix, _, specs in UNITS]
     names = [x for t in [tr] + units for k in t.order for x in [t.mangle(*k)] + [L.name for L in t.done[k].loops]]
